@@ -1,6 +1,10 @@
 package inmem
 
-import "github.com/acquirecloud/golibs/kvs"
+import (
+	"time"
+
+	"github.com/acquirecloud/golibs/kvs"
+)
 
 // VerifWaiterTable reports the size of the waiter table of an in-memory storage (read-only):
 // number of entries and the sum of their waiter counts. Overlay file of /verif.
@@ -25,7 +29,13 @@ func VerifWithLock(st kvs.Storage, f func()) bool {
 		return false
 	}
 	s.lock.Lock()
-	defer s.lock.Unlock()
 	f()
+	// Put the mutex into starvation mode: the goroutines that queued up during f have waited > 1 ms; the first one
+	// wakes on this Unlock, finds the mutex taken again and flags starvation, after which every Unlock hands the
+	// mutex (and the processor) directly to the next waiter in FIFO order.
+	s.lock.Unlock()
+	s.lock.Lock()
+	time.Sleep(time.Millisecond)
+	s.lock.Unlock()
 	return true
 }
